@@ -106,6 +106,7 @@ func runC10KMS(t *simrt.Tape, o Opts) Outcome {
 	cfg := schedCfg(t, o, true)
 	var st Stats
 	st.Oracle = map[string]int{}
+	st.Faults = map[string]int{}
 	var viols []world.Violation
 	violate := func(sig, format string, a ...any) {
 		if len(viols) == 0 {
@@ -157,6 +158,7 @@ func runC10KMS(t *simrt.Tape, o Opts) Outcome {
 			for _, r := range regions {
 				arnNow[r] = arn[r]
 				if t.Choose(2, "reconfigured.region") == 1 {
+					st.Faults["reader.master-key-arn-re-pointed"]++
 					arnNow[r] = arn[r] + "-2"
 				}
 			}
@@ -182,6 +184,7 @@ func runC10KMS(t *simrt.Tape, o Opts) Outcome {
 		}
 		for i, r := range regions {
 			if wm>>i&1 == 1 {
+				st.Faults["region.fails-at-wrap"]++
 				switch t.Choose(3, "failwhat") {
 				case 0:
 					nodes[r].failGen, nodes[r].failEnc = true, true
@@ -195,6 +198,9 @@ func runC10KMS(t *simrt.Tape, o Opts) Outcome {
 		if t.Choose(2, "slow-regions") == 1 {
 			for _, r := range regions {
 				nodes[r].lat = regionLatencies[t.Choose(len(regionLatencies), "region.latency")]
+				if nodes[r].lat > 0 {
+					st.Faults["region.slow"]++
+				}
 			}
 		}
 		blob, err := wrapper.EncryptKey(context.Background(), sk)
@@ -208,6 +214,7 @@ func runC10KMS(t *simrt.Tape, o Opts) Outcome {
 		}
 		for i, r := range regions {
 			if um>>i&1 == 1 {
+				st.Faults["region.fails-at-unwrap"]++
 				nodes[r].failDec = true
 				nodes[r].wrongPlain = t.Choose(2, "wrongplain") == 1
 			}
